@@ -50,7 +50,7 @@ def generate():
     errs = enum_names(os.path.join(inc, 'nop', 'status.h'), 'ErrorStatus')
     prog = ['#include <cstdio>', '#include <cstdint>', '#include <nop/serializer.h>', '#include <nop/status.h>',
             '#include <nop/table.h>', '#include <nop/rpc/interface.h>', '#include <nop/types/variant.h>',
-            '#include <nop/types/handle.h>', 'int main() {']
+            '#include <nop/types/handle.h>', '#include <nop/types/optional.h>', '#include <map>', '#include <tuple>', '#include <array>', '#include <vector>', '#include <string>', 'int main() {']
     for n in ebytes:
         prog.append('  std::printf("EB %s %%u\\n", static_cast<unsigned>(nop::EncodingByte::%s));' % (n, n))
     for n in errs:
@@ -64,6 +64,29 @@ def generate():
     prog.append('  std::printf("K interfaceKey1 %llu\\n", (unsigned long long)nop::kNopInterfaceKey1);')
     prog.append('  std::printf("K emptyVariantIndex %d\\n", (int)nop::Variant<int>::kEmptyIndex);')
     prog.append('  std::printf("K emptyHandleReference %lld\\n", (long long)nop::kEmptyHandleReference);')
+    # executed tables: Match() of the scalar and container encodings on all 256 prefix bytes, and the
+    # class / size the integer encoders choose at every class boundary
+    kinds = [('u8', 'std::uint8_t'), ('u16', 'std::uint16_t'), ('u32', 'std::uint32_t'), ('u64', 'std::uint64_t'),
+             ('i8', 'std::int8_t'), ('i16', 'std::int16_t'), ('i32', 'std::int32_t'), ('i64', 'std::int64_t')]
+    others = [('bool', 'bool'), ('f32', 'float'), ('f64', 'double'), ('string', 'std::string'),
+              ('vector_u8', 'std::vector<std::uint8_t>'), ('vector_string', 'std::vector<std::string>'),
+              ('array_i16_2', 'std::array<std::int16_t, 2>'), ('array_string_2', 'std::array<std::string, 2>'),
+              ('map', 'std::map<std::uint8_t, std::string>'), ('tuple', 'std::tuple<std::uint8_t, std::string>'),
+              ('pair', 'std::pair<std::uint8_t, std::string>'), ('optional_u16', 'nop::Optional<std::uint16_t>'),
+              ('optional_string', 'nop::Optional<std::string>'), ('variant', 'nop::Variant<int, std::string>')]
+    for (k, ct) in kinds + others:
+        prog.append('  { std::printf("MT %s "); for (int b = 0; b < 256; b++) std::printf("%%d", nop::Encoding<%s>::Match(static_cast<nop::EncodingByte>(b)) ? 1 : 0); std::printf("\\n"); }' % (k, ct))
+    points = [-(2 ** 63), -(2 ** 63) + 1, -(2 ** 31) - 1, -(2 ** 31), -(2 ** 31) + 1, -32769, -32768, -32767, -129, -128, -127, -65, -64, -63, -1,
+              0, 1, 63, 64, 127, 128, 129, 255, 256, 257, 32767, 32768, 65535, 65536, 65537, 2 ** 31 - 1, 2 ** 31, 2 ** 32 - 1, 2 ** 32,
+              2 ** 32 + 1, 2 ** 63 - 1, 2 ** 63, 2 ** 64 - 1]
+    bits = dict(u8=8, u16=16, u32=32, u64=64, i8=8, i16=16, i32=32, i64=64)
+    for (k, ct) in kinds:
+        lo, hi = (-(2 ** (bits[k] - 1)), 2 ** (bits[k] - 1) - 1) if k[0] == 'i' else (0, 2 ** bits[k] - 1)
+        for v in points:
+            if lo <= v <= hi:
+                lit = ('(-%dLL - 1)' % (-(v + 1))) if v < 0 else ('%dULL' % v)
+                prog.append('  { %s x = static_cast<%s>(%s); std::printf("PP %s %d %%u %%zu\\n", static_cast<unsigned>(nop::Encoding<%s>::Prefix(x)), nop::Encoding<%s>::Size(x)); }'
+                            % (ct, ct, lit, k, v, ct, ct))
     prog.append('  return 0; }')
     os.makedirs(os.path.join(nv.BUILD, 'extract'), exist_ok=True)
     src = os.path.join(nv.BUILD, 'extract', 'extract.cpp')
@@ -81,6 +104,7 @@ def generate():
             raise nv.BuildError('constant extractor does not compile against /repo', p.stdout)
         out = subprocess.run([exe], stdout=subprocess.PIPE, text=True).stdout
         eb, er, bs, ks = [], [], [], {}
+        mts, pps = [], []
         for line in out.split('\n'):
             t = line.split(' ', 3)
             if t[0] == 'EB':
@@ -91,12 +115,21 @@ def generate():
                 bs.append(int(t[2]))
             elif t[0] == 'K':
                 ks[t[1]] = int(t[2])
+            elif t[0] == 'MT':
+                mts.append((t[1], t[2]))
+            elif t[0] == 'PP':
+                pps.append((t[1], int(t[2]), int(t[3].split(' ')[0]), int(t[3].split(' ')[1])))
         rows = doc_prefix_rows()
         L = ['/- Generated by tools/extract.py from /repo on every run -- do not edit. -/', 'namespace Nop.Generated', '']
         L.append('def encodingBytes : List (String × Nat) := [' + ', '.join('("%s", %d)' % x for x in eb) + ']')
         L.append('def errorStatus : List (String × Nat × String) := [' + ', '.join('("%s", %d, "%s")' % x for x in er) + ']')
         L.append('def baseEncodingSize : List Nat := [' + ', '.join(str(x) for x in bs) + ']')
         L.append('def docPrefixes : List (String × String × Nat × Nat) := [' + ', '.join('("%s", "%s", %d, %d)' % x for x in rows) + ']')
+        def lit(v):
+            return '(%d)' % v if v < 0 else str(v)
+        L.append('def matchTables : List (String × List Bool) := [' + ', '.join(
+            '("%s", [%s])' % (n, ', '.join('true' if ch == '1' else 'false' for ch in tb)) for (n, tb) in mts) + ']')
+        L.append('def prefixPoints : List (String × Int × Nat × Nat) := [' + ', '.join('("%s", %s, %d, %d)' % (k, lit(v), pf, sz) for (k, v, pf, sz) in pps) + ']')
         for k in sorted(ks):
             L.append('def %s : Int := %d' % (k, ks[k]))
         L += ['', 'end Nop.Generated', '']
